@@ -1226,7 +1226,10 @@ def _parse_xml_document(file: PathOrIO, failsafe: bool = True, **parser_kwargs: 
     :return: The root element of the element tree
     """
 
-    parser = etree.XMLParser(remove_blank_text=True, remove_comments=True, remove_pis=True, **parser_kwargs)
+    # No remove_blank_text=True here: libxml2 then also drops white-space-only character data in front of a comment or
+    # processing instruction *inside a text value* ("\t<!-- c -->tab" was read as "tab"). White space between elements
+    # is harmless, since the constructors only look at child elements and at the text of leaf elements.
+    parser = etree.XMLParser(remove_comments=True, remove_pis=True, **parser_kwargs)
 
     try:
         root = etree.parse(file, parser).getroot()
